@@ -335,6 +335,13 @@ def reference(d):
     if fn == "mode_dot":
         m = o["mode"] + (np.asarray(a[0]).ndim if o["mode"] < 0 else 0)     # negative modes count from the end
         return ref_mode_dot(a[0], a[1], m, o["transpose"])
+    if fn == "multi_mode_dot" and o.get("successive"):
+        # a mode named more than once (matrix operands only): the successive mode products, equal modes in listing order
+        T = np.asarray(a[0]); nd = T.ndim
+        trip = sorted([(m + nd if m < 0 else m, i) for i, m in enumerate(o["modes"]) if i != o["skip"]], key=lambda x: x[0])
+        for m, i in trip:
+            T = ref_mode_dot(T, a[1 + i], m, o["transpose"])
+        return T
     if fn == "multi_mode_dot":
         ms = o["modes"]
         if ms is not None:
@@ -513,7 +520,7 @@ def gen_descriptors(tier, rng):
     yield D("mode_dot", [g.arr((3, 2)), g.arr((1, 2))], valid=False, mode=0, transpose=True)
 
     # negative modes (Python convention: counted from the end) on a thinned set of shapes, every negative mode x operand kind;
-    # a mode below -order is rejected.  einsum + matrix operand is the known finding einsum_mode_dot_negative_mode.
+    # a mode below -order is rejected (einsum + matrix operand was wrong before /repo 92eb2a5).
     neg_shapes = [s for s in all_shapes if len(s) <= 3][:: (9 if quick else 3)]
     for s in neg_shapes:
         for mode in range(len(s)):
@@ -558,8 +565,7 @@ def gen_descriptors(tier, rng):
                 yield D("multi_mode_dot", [g.arr(s, cplx)] + Ms, modes=(None if vname == "none" else modes), skip=skip, transpose=tr)
 
     # negative modes (counted from the end): some or all modes written negatively, random operand kinds, skip, transpose.
-    # Both backends sort by the raw mode numbers; with a vector operand the later `mode - decrement` then hits the wrong mode:
-    # known finding multi_mode_dot_negative_modes (the models reproduce the code as it is).
+    # (before /repo 92eb2a5 both backends sorted by the raw mode numbers and contracted the wrong mode after a vector operand)
     for _ in range(40 if quick else 200):
         s = tuple(rng.choice(dims) for _ in range(rng.randint(2, 3)))
         nm = rng.randint(1, len(s))
@@ -577,6 +583,46 @@ def gen_descriptors(tier, rng):
         skip = rng.choice([None, None, rng.randrange(len(pos))])
         yield D("multi_mode_dot", [g.arr(s, cplx)] + Ms, modes=[m - len(s) if ng else m for m, ng in zip(pos, neg)], skip=skip, transpose=tr)
     yield D("multi_mode_dot", [g.arr((2, 3)), g.arr((2, 2))], valid=False, modes=[-3], skip=None, transpose=False)
+
+    # the same mode named twice or three times (matrix operands): the textbook value is the successive product in listing order
+    # (core backend); the einsum backend contracts every operand with the tensor's original label: known finding
+    # einsum_multi_mode_dot_repeated_modes.  "chain": operand k fits the size left by operand k-1 (well-formed successive
+    # product); otherwise every operand has the ORIGINAL mode size (the successive product is malformed unless sizes coincide).
+    for _ in range(24 if quick else 120):
+        s = tuple(rng.choice([2, 3]) for _ in range(rng.randint(1, 3)))   # sizes >= 2: np.einsum broadcasts size-1 axes (outside the model)
+        m = rng.randrange(len(s))
+        tr = rng.random() < 0.3
+        cplx = tr and rng.random() < 0.5
+        reps = rng.choice([2, 2, 3])
+        chain = rng.random() < 0.6
+        Ms, modes, cur, ok = [], [], s[m], True
+        for _k in range(reps):
+            J = rng.choice([2, 3])
+            cols = cur if chain else s[m]
+            ok = ok and cols == cur
+            Ms.append(g.arr((cols, J) if tr else (J, cols), cplx)); modes.append(m if rng.random() < 0.7 else m - len(s))
+            cur = J
+        if len(s) > 1 and rng.random() < 0.5:       # one more operand on another mode, listed in between
+            m2 = rng.choice([x for x in range(len(s)) if x != m]); J = rng.choice([2, 3])
+            pos = rng.randrange(len(Ms) + 1)
+            Ms.insert(pos, g.arr((s[m2], J) if tr else (J, s[m2]), cplx)); modes.insert(pos, m2)
+        yield D("multi_mode_dot", [g.arr(s, cplx)] + Ms, valid=ok, modes=modes, skip=None, transpose=tr, successive=True)
+
+    # size-1 mismatches (malformed: the operand does not fit its mode, no textbook value): the core backend rejects, under the
+    # einsum backend np.einsum BROADCASTS the size-1 axis (model: einsum_np) - known finding einsum_multi_mode_dot_size1_broadcast
+    for _ in range(16 if quick else 80):
+        s = tuple(rng.choice(dims) for _ in range(rng.randint(1, 3)))
+        modes = sorted(rng.sample(range(len(s)), rng.randint(1, len(s))))
+        tr = rng.random() < 0.3
+        which = rng.randrange(len(modes))
+        Ms = []
+        for j, m in enumerate(modes):
+            sz = s[m]
+            if j == which or rng.random() < 0.3:
+                sz = 1 if s[m] != 1 else rng.choice([2, 3])
+            J = rng.choice(dims)
+            Ms.append(g.arr((sz,)) if rng.random() < 0.4 else g.arr((sz, J) if tr else (J, sz)))
+        yield D("multi_mode_dot", [g.arr(s)] + Ms, valid=False, modes=modes, skip=None, transpose=tr)
 
     # malformed multi_mode_dot requests (both backends must reject, as the model does): a size mismatch with both sizes >= 2
     # (np.einsum would broadcast a size-1 axis: outside the model), a mode beyond the order, a 3-D operand; a malformed operand
@@ -719,6 +765,14 @@ def gen_descriptors(tier, rng):
     yield D("tensordot", [g.arr((3, 3)), g.arr((3, 1))], valid=False, modes=[[1], [0]], batched=[[0], [1]])
     yield D("tensordot", [g.arr((2, 1)), g.arr((3, 2))], valid=False, modes=[[1], [0]], batched=[[], []])
     yield D("tensordot", [g.arr((2, 3)), g.arr((1, 2))], valid=False, modes=[[1], [0]], batched=[[0], [1]])
+    # a mode of one tensor named twice: no textbook value (valid=None: model-vs-code correspondence only, the backends are NOT required
+    # to agree).  The core backend rejects (transpose with a repeated axis); the einsum backend builds an equation with a repeated
+    # label and np.einsum takes the diagonal - both are what the models do.
+    for (sa, sb, m, b) in (((2, 3), (2, 2, 3), ([0, 0], [0, 1]), ([], [])), ((2, 3), (2, 2), ([0, 0], [0, 1]), ([], [])),
+                           ((2, 2, 3), (2, 3), ([0, 1], [0, 0]), ([], [])), ((3, 2), (3, 3, 2), ([], []), ([0, 0], [0, 1])),
+                           ((2, 3), (2, 2, 3), ([0], [0]), ([0], [1])), ((2, 2), (2, 3), ([0, 1], [0, 0]), ([], [])),
+                           ((2, 3, 2), (2, 3), ([0, 2], [0, 0]), ([1], [1]))):
+        yield D("tensordot", [g.arr(sa), g.arr(sb)], valid=None, modes=[list(m[0]), list(m[1])], batched=[list(b[0]), list(b[1])])
     # modes=k (int): every (order1, order2, k); with k >= 2 also equal common sizes, where a mis-paired contraction changes values only
     for na in (1, 2, 3):
         for nb_ in (1, 2, 3):
@@ -926,6 +980,8 @@ def same(a, b):
 def predicate(d, be, out):
     """the property on ONE implementation output: equals the textbook formula (valid input) / is rejected (invalid input)"""
     st, v = out
+    if d["valid"] is None:      # a request the property does not speak about (no textbook value): correspondence only
+        return None
     if not d["valid"]:
         return None if st != "ok" else f"{d['fn']}[{be}]: malformed operands were accepted"
     if st != "ok":
@@ -954,30 +1010,53 @@ def describe(d, be):
 # ----------------------------------------------------------------------------- known-finding classifiers
 # none: the two findings of round 1 (core inner n_modes=0; core tensordot with unsorted batched modes) were repaired in /repo
 # (f5f06aa, 8cd4a39); their witnesses are regression cases in corpus/C02 and any recurrence is a VIOLATION.
-def _clf_einsum_negative_mode(f):
-    """einsum_tenalg.mode_dot with a NEGATIVE mode and a MATRIX operand (the einsum output itself, or the disagreement of the two
-    backends on such a call); every other failing input stays a VIOLATION"""
-    inp = f.get("inputs") or {}
-    o = inp.get("opts") or {}
-    arrs = inp.get("arrays") or []
-    return (inp.get("fn") == "mode_dot" and inp.get("backend") in ("einsum", "all") and isinstance(o.get("mode"), int) and o["mode"] < 0
-            and len(arrs) == 2 and np.asarray(arrs[1]).ndim == 2 and bool(inp.get("valid")))
-
-
-def _clf_mmd_negative_modes(f):
-    """multi_mode_dot (either backend, or their disagreement) called with at least one NEGATIVE mode and at least one non-skipped
-    VECTOR operand; every other failing input stays a VIOLATION"""
+# earlier findings were repaired in /repo (f5f06aa inner n_modes=0, 8cd4a39 tensordot batch order, 92eb2a5 negative modes of
+# einsum mode_dot and of both multi_mode_dot); their witnesses are regression Examples / corpus cases and any recurrence is a VIOLATION.
+def _clf_einsum_repeated_modes(f):
+    """einsum multi_mode_dot (its output, its acceptance of a malformed successive product, or its disagreement with the core
+    backend) on a request naming the same resolved mode on two non-skipped operands; every other failing input stays a VIOLATION"""
     inp = f.get("inputs") or {}
     o = inp.get("opts") or {}
     arrs = inp.get("arrays") or []
     ms = o.get("modes")
-    if not (inp.get("fn") == "multi_mode_dot" and bool(inp.get("valid")) and isinstance(ms, (list, tuple)) and any(isinstance(m, int) and m < 0 for m in ms)):
+    if not (inp.get("fn") == "multi_mode_dot" and inp.get("backend") in ("einsum", "all") and isinstance(ms, (list, tuple)) and arrs):
         return False
-    return any(np.asarray(a).ndim == 1 for i, a in enumerate(arrs[1:]) if i != o.get("skip"))
+    nd = np.asarray(arrs[0]).ndim
+    res = [m + nd if isinstance(m, int) and m < 0 else m for i, m in enumerate(ms) if i != o.get("skip")]
+    return len(set(res)) < len(res)
 
 
-CLASSIFIERS = {"einsum_mode_dot_negative_mode_matrix": _clf_einsum_negative_mode,
-               "multi_mode_dot_negative_modes_vector": _clf_mmd_negative_modes}
+def _clf_einsum_size1_broadcast(f):
+    """einsum multi_mode_dot accepting a malformed request whose only misfits are size-1 mismatches (operand axis of size 1 on a longer
+    mode, or a mode of size 1 under a longer operand axis) on pairwise distinct modes; every other failing input stays a VIOLATION"""
+    inp = f.get("inputs") or {}
+    o = inp.get("opts") or {}
+    arrs = [np.asarray(a) for a in (inp.get("arrays") or [])]
+    ms = o.get("modes")
+    if not (inp.get("fn") == "multi_mode_dot" and inp.get("backend") in ("einsum", "all") and inp.get("valid") is False and arrs):
+        return False
+    nd = arrs[0].ndim
+    ms = list(range(len(arrs) - 1)) if ms is None else list(ms)
+    seen, found = set(), False
+    for i, (m, a) in enumerate(zip(ms, arrs[1:])):
+        if i == o.get("skip"):
+            continue
+        if not isinstance(m, int) or not -nd <= m < nd or a.ndim not in (1, 2):
+            return False
+        m = m + nd if m < 0 else m
+        if m in seen:
+            return False
+        seen.add(m)
+        dim = a.shape[0] if a.ndim == 1 or o.get("transpose") else a.shape[1]
+        if dim != arrs[0].shape[m]:
+            if 1 not in (dim, arrs[0].shape[m]):
+                return False
+            found = True
+    return found
+
+
+CLASSIFIERS = {"einsum_multi_mode_dot_repeated_modes": _clf_einsum_repeated_modes,
+               "einsum_multi_mode_dot_size1_broadcast": _clf_einsum_size1_broadcast}
 
 
 def entry_point(d, be):
@@ -1067,6 +1146,36 @@ def source_tie(chk):
         elif status == "skipped":
             chk.notes.append("source tie final_modes_source_is_model skipped: " + detail)
         chk.cov["source_derived_lemmas"] = {"final_modes_source_is_model": status}
+        # second tie: the einsum equation strings of every einsum-backend routine, regenerated from the current source (ast rewrite of
+        # the routine's einsum call into a recorder, harness/props/C02_eqtie.py), equal the model's equations up to label renaming
+        from harness.props import C02_eqtie
+        est = "failed"
+        try:
+            inst, text = C02_eqtie.generate(C.REPO)
+            fn = os.path.join(d, "EqTie.v"); open(fn, "w").write(text)
+            for attempt in (1, 2):
+                r = subprocess.run(["timeout", "300", "coqc", "-w", "none", "-R", os.path.join(C.COQ, "theories"), "TLV", fn], capture_output=True, text=True, cwd=d)
+                if r.returncode in (0, 1):
+                    break
+            import re
+            m = re.search(r"=\s*\((\d+)(?:%nat)?\s*,\s*\[([^\]]*)\]", r.stdout.replace("\n", " "))
+            if r.returncode == 0 and m and int(m.group(1)) == len(inst):
+                bad = [int(x.replace("%nat", "")) for x in m.group(2).split(";") if x.strip()]
+                if not bad:
+                    est = "checked"
+                else:
+                    chk.broken.append({"what": "source tie einsum_equations broken: the equation built by the current source differs from the model's equation "
+                                               "(the one the index-formula theorems are proved about)", "detail": [inst[i][0] for i in bad[:8]]})
+            elif r.returncode not in (0, 1):
+                est = "skipped"; chk.notes.append(f"source tie einsum_equations skipped: coqc rc {r.returncode} (killed / timeout)")
+            else:
+                chk.broken.append({"what": "source tie einsum_equations: generated file rejected by coqc", "detail": (r.stdout + r.stderr)[-600:]})
+            chk.cov["einsum_equation_instances"] = len(inst)
+        except C02_eqtie.Untranslatable as e:
+            est = "broken (untranslatable source)"
+            chk.broken.append({"what": "source tie einsum_equations broken: the ast rewrite does not cover the current source of an einsum-backend routine", "detail": str(e)})
+        chk.checker_cmds.append("coqc on generated build/gen/C02_*/EqTie.v: source einsum equations = model equations up to renaming (Proofs/TenalgProofsEq.v)")
+        chk.cov["source_derived_lemmas"]["einsum_equations"] = est
     finally:
         shutil.rmtree(d, ignore_errors=True)
 
@@ -1158,7 +1267,7 @@ def run(chk):
         oks = [(be, out[1]) for be, out, _ in results if out[0] == "ok" and not isinstance(out[1], tuple)]
         sts = {out[0] == "ok" for _, out, _ in results}
         chk.cov["evaluations"] += 1
-        if agree_ok and (len(sts) > 1 or any(not same(oks[0][1], v) for _, v in oks[1:])):
+        if agree_ok and d["valid"] is not None and (len(sts) > 1 or any(not same(oks[0][1], v) for _, v in oks[1:])):
             chk.finding(entry_point(d, "core"), describe(d, "all"), f"{d['fn']}: backends {[b for b, _ in oks]} disagree", "C02_backends_agree")
         if di % 701 == 0:
             be, out, msg = results[0]
@@ -1189,7 +1298,7 @@ def run(chk):
         chk.disagreement("corr:C02 (Model/Tenalg.v vs tensorly/tenalg)", describe(d, be))
     chk.assumptions = ["np.dot / np.kron / np.einsum / broadcasting multiply / reshape / transpose behave as modelled at index level in Model/Tenalg.v and Base/Tensor.v (checked on this run's cases)",
                        "floating-point rounding is outside the model; integer-valued operands keep every partial sum far below 2^53 so the comparison is exact",
-                       "size-0 modes, repeated modes with vector operands (Python reaches negative indices there), khatri_rao of 1-D operands, einsum multi_mode_dot with a size-1 operand axis on a larger mode (np.einsum broadcasts, core and model reject), higher_order_moment of order 0 (the code returns the mean, the model rejects), weights / masks that NumPy broadcasts in a degenerate way (weights longer than a single column R = 1, masks with size-1 axes or a flat mask under the einsum backend, which the core backend accepts and np.einsum rejects) are outside the model and not generated; the int / negative / scalar / flat forms of tensordot's modes and batched_modes go to the model in the form given to the code (Model/Tenalg.v validate_contraction mirrors tenalg_utils._validate_contraction_modes; an untranslatable form is reported as a broken tie); repeated modes on one tensor, bool / NumPy-integer mode arguments are not generated"]
+                       "size-0 modes, repeated modes with vector operands (Python reaches negative indices there), khatri_rao of 1-D operands, higher_order_moment of order 0 (the code returns the mean, the model rejects), weights / masks that NumPy broadcasts in a degenerate way (weights longer than a single column R = 1, masks with size-1 axes or a flat mask under the einsum backend, which the core backend accepts and np.einsum rejects) are outside the model and not generated; the int / negative / scalar / flat forms of tensordot's modes and batched_modes go to the model in the form given to the code (Model/Tenalg.v validate_contraction mirrors tenalg_utils._validate_contraction_modes; an untranslatable form is reported as a broken tie); repeated modes on one tensor, bool / NumPy-integer mode arguments are not generated"]
     chk.trusted = ["explicit-loop NumPy reference formulas in harness/props/C02.py (spec-side transcription used by the Python predicate)",
                    "higher_order_moment is compared as n_samples * moment (the division by n_samples is checked to be integer-exact to 1e-9)"]
     return chk.finish(CLASSIFIERS)
